@@ -58,6 +58,31 @@ def split_top_commas(toks):
     return parts
 
 
+def split_fields(toks):
+    """Split struct-body tokens at top-level commas, also respecting generic angle brackets."""
+    parts, cur, k, depth = [], [], 0, 0
+    while k < len(toks):
+        t = toks[k]
+        if t.kind == "punct" and t.text in rustlex.OPEN:
+            e = match_close(toks, k)
+            cur.extend(toks[k:e + 1])
+            k = e + 1
+            continue
+        if t.kind == "punct" and t.text == "<":
+            depth += 1
+        elif t.kind == "punct" and t.text == ">":
+            depth -= 1
+        if t.kind == "punct" and t.text == "," and depth == 0:
+            parts.append(cur)
+            cur = []
+        else:
+            cur.append(t)
+        k += 1
+    if any(t.kind not in ("ws", "comment") for t in cur):
+        parts.append(cur)
+    return parts
+
+
 def find_token_seq(toks, pat_toks, start=0):
     """All positions (first, last token index) where the significant tokens of
     pat_toks occur consecutively in toks (ignoring whitespace/comments)."""
@@ -321,7 +346,7 @@ def parse_fn_block(lines, qual, opts, lineno, template):
                 mode, text = mm.group(1), text[mm.end():]
             d.clauses.append((word, cid, text, mode))
         elif word == "loop":
-            m = re.match(r"(\d+)\s+(invariant_except_break|invariant|ensures|decreases)\s*(.*)$", text, re.S)
+            m = re.match(r"(\d+)\s+(invariant_except_break|invariant|ensures|decreases|body_start|body_end)\s*(.*)$", text, re.S)
             if not m:
                 raise ValueError("%s:%d: bad loop clause: %s" % (template, lineno, text))
             n, kind, rest = int(m.group(1)), m.group(2), m.group(3)
@@ -414,6 +439,7 @@ class Gen:
     # ---- template processing
     def add_template(self, path, module):
         self.cur_module = module
+        self.cur_sub = None
         tl = open(path).read().split("\n")
         i = 0
         while i < len(tl):
@@ -428,6 +454,12 @@ class Gen:
                     self.emit_type(word, d, path, i + 1)
                 elif word == "const":
                     self.emit_const(d, path, i + 1)
+                elif word == "submodule":
+                    self.cur_sub = d.split()[1] if len(d.split()) > 1 else None
+                elif word == "getters":
+                    self.emit_getters(d)
+                elif word == "enum-default":
+                    self.emit_enum_default(d)
                 elif word == "expect-variants":
                     self.expect_variants(d)
                 elif word == "expect-fields":
@@ -501,7 +533,7 @@ class Gen:
             raise AnchorLost("%s %s not found in %s" % (kind, name, self.cur_source))
         inner = tokenize(src[it.body_open + 1:it.body_close])
         names = []
-        for part in split_top_commas(inner):
+        for part in (split_fields(inner) if kind == 'struct' else split_top_commas(inner)):
             sig_ = [t for t in part if t.kind not in ("ws", "comment")]
             k = 0
             while k < len(sig_) and sig_[k].text == "#":
@@ -525,6 +557,76 @@ class Gen:
             if k < len(sig_) and sig_[k].kind == "ident":
                 names.append(sig_[k].text)
         return names
+
+    def emit_getters(self, d):
+        """R14: getset `#[get = ...]` on a field -> the getter it generates: `fn field(&self) -> &T { &self.field }`."""
+        name = d.split()[1]
+        src, toks = self.source(self.cur_source)
+        it = rustlex.find_item(src, "struct", name, toks=toks)
+        if it is None or it.body_open is None:
+            raise AnchorLost("struct %s not found in %s" % (name, self.cur_source))
+        inner = tokenize(src[it.body_open + 1:it.body_close])
+        out = []
+        for part in split_fields(inner):
+            sig_ = [t for t in part if t.kind not in ("ws", "comment")]
+            text = "".join(t.text for t in part)
+            if not re.search(r"#\[\s*get\b", text):
+                continue
+            # strip attributes
+            k = 0
+            while k < len(sig_) and sig_[k].text == "#":
+                depth = 0
+                k += 1
+                while k < len(sig_):
+                    if sig_[k].text == "[":
+                        depth += 1
+                    elif sig_[k].text == "]":
+                        depth -= 1
+                        if depth == 0:
+                            k += 1
+                            break
+                    k += 1
+            rest = sig_[k:]
+            # visibility
+            if rest and rest[0].text == "pub":
+                rest = rest[1:]
+                if rest and rest[0].text == "(":
+                    while rest[0].text != ")":
+                        rest = rest[1:]
+                    rest = rest[1:]
+            fname = rest[0].text
+            # type = tokens after ':' in the original part
+            colon = [i for i, t in enumerate(part) if t.kind == "punct" and t.text == ":" ]
+            # first ':' that follows the field name token
+            idx = None
+            seen = False
+            for i, t in enumerate(part):
+                if t.kind == "ident" and t.text == fname and not seen:
+                    seen = True
+                elif seen and t.kind == "punct" and t.text == ":":
+                    idx = i
+                    break
+            ty = "".join(t.text for t in part[idx + 1:]).strip()
+            out.append("    pub fn %s(&self) -> (r: &%s) ensures *r == self.%s { &self.%s }" % (fname, ty, fname, fname))
+        if not out:
+            raise AnchorLost("struct %s has no #[get] fields" % name)
+        self.emit("impl %s {\n%s\n}" % (name, "\n".join(out)))
+        self.rewrites["R14"] = self.rewrites.get("R14", 0) + len(out)
+
+    def emit_enum_default(self, d):
+        """R14: `#[derive(Default)]` on an enum -> the impl rustc generates (the variant marked #[default])."""
+        name = d.split()[1]
+        src, toks = self.source(self.cur_source)
+        it = rustlex.find_item(src, "enum", name, toks=toks)
+        if it is None:
+            raise AnchorLost("enum %s not found in %s" % (name, self.cur_source))
+        body = src[it.body_open:it.body_close]
+        m = re.search(r"#\[default\]\s*(?:///[^\n]*\s*)*([A-Za-z_][A-Za-z0-9_]*)", body)
+        if not m:
+            raise AnchorLost("enum %s has no #[default] variant" % name)
+        v = m.group(1)
+        self.emit("impl %s { pub fn default() -> (r: Self) ensures r == %s::%s { %s::%s } }" % (name, name, v, name, v))
+        self.rewrites["R14"] = self.rewrites.get("R14", 0) + 1
 
     def expect_variants(self, d):
         parts = d.split()
@@ -587,7 +689,7 @@ class Gen:
             self.emit_fn(tw)
             return
         sig_text = rewrite_signature(sig_text, name, emit_name, fd.opts.get("ret", "r"), fd.opts)
-        qual_name = self.cur_module + "::" + (fd.qual if "as" not in fd.opts else (ty + "::" if ty else "") + emit_name)
+        qual_name = self.cur_module + "::" + (self.cur_sub + "::" if getattr(self, "cur_sub", None) else "") + (fd.qual if "as" not in fd.opts else (ty + "::" if ty else "") + emit_name)
         rec = {"kind": "fn", "name": qual_name, "source": srcfile, "src_line": src_line, "tags": fd.tags,
                "contract_only": contract_only, "clauses": [], "notes": fd.notes,
                "src_fn": fd.qual, "module": self.cur_module}
@@ -603,7 +705,7 @@ class Gen:
         clauses = [c[:3] for c in fd.clauses if c[3] is None or c[3] == fatal_mode]
         if getattr(fd, "_is_twin", False):
             clauses.append(("ensures", "TWIN", "false"))
-            rec["twin_of"] = self.cur_module + "::" + fd.qual
+            rec["twin_of"] = self.cur_module + "::" + (self.cur_sub + "::" if getattr(self, "cur_sub", None) else "") + fd.qual
         for kind in order:
             cs = [c for c in clauses if c[0] == kind]
             if not cs:
@@ -630,6 +732,7 @@ class Gen:
         for (pat, nth, rep, label, word) in fd.replaces:
             body = self.apply_replace(body, pat, nth, rep, fd, label, word)
         # 2. hints and loop clauses are spliced on the source tokens, with markers, before generic rewrites
+        body = self.continue_to_else(body, fd)
         body = self.splice_loops(body, fd, rec)
         body = self.splice_hints(body, fd)
         body = rw.rewrite(body)
@@ -685,6 +788,70 @@ class Gen:
                 body = body[:pos] + "\n" + code + body[pos:]
         return body
 
+    def continue_to_else(self, body, fd):
+        """R8b: inside the loops listed by `opt nocontinue=<ordinals>`, rewrite
+        `if C { S; continue; } REST`  into  `if C { S; } else { REST }` (continue as the last statement of an
+        else-less `if` at the top level of the loop body) -- the same control flow without `continue`."""
+        spec = fd.opts.get("nocontinue")
+        if not spec:
+            return body
+        for n in [int(x) for x in str(spec).split(",")]:
+            for _ in range(50):
+                toks = tokenize(body)
+                loops = [k for k in _sig_idx(toks) if toks[k].kind == "ident" and toks[k].text in ("while", "for", "loop")
+                         and not _is_for_in_type(toks, k)]
+                if n >= len(loops):
+                    raise AnchorLost("fn %s: loop %d not found for nocontinue" % (fd.qual, n))
+                j = loops[n] + 1
+                while j < len(toks) and not (toks[j].kind == "punct" and toks[j].text == "{"):
+                    if toks[j].kind == "punct" and toks[j].text in ("(", "["):
+                        j = match_close(toks, j)
+                    j += 1
+                close = match_close(toks, j)
+                # scan top-level statements of the loop body (and of else-blocks created here) for `if ... { ...; continue; }`
+                def scan(bopen, bclose, body):
+                    k = bopen + 1
+                    while k < bclose:
+                        t = toks[k]
+                        if t.kind == "punct" and t.text in rustlex.OPEN:
+                            k = match_close(toks, k) + 1
+                            continue
+                        if t.kind == "ident" and t.text == "if":
+                            b = k + 1
+                            while not (toks[b].kind == "punct" and toks[b].text == "{"):
+                                if toks[b].kind == "punct" and toks[b].text in ("(", "["):
+                                    b = match_close(toks, b)
+                                b += 1
+                            e = match_close(toks, b)
+                            nxt = _next_sig(toks, e)
+                            has_else = nxt < bclose and toks[nxt].kind == "ident" and toks[nxt].text == "else"
+                            inner = [x for x in range(b + 1, e) if toks[x].kind not in ("ws", "comment")]
+                            if (not has_else and len(inner) >= 2 and toks[inner[-1]].text == ";" and toks[inner[-2]].text == "continue"):
+                                return (body[:toks[inner[-2]].start] + body[toks[inner[-1]].end:toks[e].end] + " else {" +
+                                        body[toks[e].end:toks[bclose].start] + "}\n" + body[toks[bclose].start:])
+                            if has_else:
+                                eb = _next_sig(toks, nxt)
+                                if toks[eb].kind == "punct" and toks[eb].text == "{":
+                                    ec = match_close(toks, eb)
+                                    r = scan(eb, ec, body)
+                                    if r is not None:
+                                        return r
+                                    k = ec + 1
+                                    continue
+                            k = e + 1
+                            continue
+                        k += 1
+                    return None
+                nb = scan(j, close, body)
+                changed = nb is not None
+                if changed:
+                    body = nb
+                    self.rewrites["R8"] = self.rewrites.get("R8", 0) + 1
+                if not changed:
+                    break
+            # no `continue` may remain at the top level of that loop
+        return body
+
     def splice_loops(self, body, fd, rec):
         rec["_loop_clauses"] = []
         if not fd.loops:
@@ -719,6 +886,15 @@ class Gen:
                                                  "text": " ".join(ctext.split()), "lines": None})
                     text += "                    /*@C%d*/ %s,\n" % (idx, " ".join(ctext.split()).rstrip(","))
             inserts.append((toks[j].start, text + "            "))
+            close = match_close(toks, j)
+            for (kind, cid, ctext) in clauses:
+                code = ctext.strip()
+                if code.startswith("::"):
+                    code = code[2:].strip()
+                if kind == "body_start":
+                    inserts.append((toks[j].end, "\n" + code + "\n"))
+                elif kind == "body_end":
+                    inserts.append((toks[close].start, "\n" + code + "\n"))
         for pos, text in sorted(inserts, reverse=True):
             body = body[:pos] + text + body[pos:]
         return body
